@@ -1,8 +1,8 @@
 """C12 — quadrature methods (src/math/integration.rs).
 
 S2/S3  the kernels (get_simpson_weight, Steps::value, simpson, simpson2d, quad_simpsons_mem, quad_asr, simpson_adaptive,
-       simpson_adaptive_2d, the Simpson arms of Integrator::integrate{,2d}, their acceptance predicates and their
-       integrand-call counts) are REGENERATED from the source (tools/gen/integration.py -> Gen/Integration.v) and the
+       simpson_adaptive_2d, all five arms of Integrator::integrate{,2d} — the Gauss-Legendre, Clenshaw-Curtis and Gauss-Kronrod
+       ones with the external crates as oracles —, their acceptance predicates and their integrand-call counts) are REGENERATED from the source (tools/gen/integration.py -> Gen/Integration.v) and the
        theorems of Props/C12.v are re-checked over them.
 S4     the translated kernels are run over Q by vm_compute on the harness's inputs and compared with the implementation
        (values, accepted parameters, numbers of integrand calls); the rule each fixed-rule integrator applies is EXTRACTED
@@ -953,12 +953,20 @@ def correspondence(ctx, C, obs):
                     "model_simpson", ck)
             elif m["m"] == "gl" and max(m["degree"], 2) in gl_tables and max(m["degree"], 2) <= 12:
                 xs, ws = gl_tables[max(m["degree"], 2)]
-                add("mg_" + ck["id"], f"vclose {qlit(tol)} (integrate_GaussLegendre Qops (fun _ => {rule_lit(xs, ws)}) (poly {f.q()}) {qlit(a)} {qlit(b)} {m['degree']}) {v}",
+                add("mg_" + ck["id"], f"vclose {qlit(tol)} (integrate_GaussLegendre Qops (rule_oracle Qops (fun _ => {rule_lit(xs, ws)})) (poly {f.q()}) {qlit(a)} {qlit(b)} {m['degree']}) {v}",
                     "model_gl", ck)
             elif m["m"] == "asimp" and len(f.cs) <= 4:      # deeper recursions on raw binary64 inputs are covered by model_asimp (dyadic)
                 add("ma_" + ck["id"], f"(vclose {qlit(tol)} (simpson_adaptive Qops (poly {f.q()}) {qlit(a)} {qlit(b)} {qlit(fr(m['tol']))} {m['depth']}%nat) {v} && "
                                       f"Nat.eqb (simpson_adaptive_calls Qops (poly {f.q()}) ones1 {qlit(a)} {qlit(b)} {qlit(fr(m['tol']))} {m['depth']}%nat) {o['evals']})%bool",
                     "model_asimp", ck)
+        elif k == "separable2" and o and o.get("ok") and finite(o) and ck["method"]["m"] == "gl" and max(ck["method"]["degree"], 2) <= 5 \
+                and max(ck["method"]["degree"], 2) in gl_tables:
+            m, p_, q_ = ck["method"], ck["p"], ck["q"]
+            a, b, c, d = ck["rect"]
+            xs, ws = gl_tables[max(m["degree"], 2)]
+            S = p_.scale(a, b) * q_.scale(c, d)
+            add("mG_" + ck["id"], f"vclose {qlit(Fraction(TOL12 * S))} (integrate2d_GaussLegendre Qops (rule_oracle Qops (fun _ => {rule_lit(xs, ws)})) "
+                                  f"(sep {p_.q()} {q_.q()}) {qlit(a)} {qlit(b)} {qlit(c)} {qlit(d)} {m['degree']}) {cqlit(fval_of(o))}", "model_gl2d", ck)
         elif k == "model_asimp" and o and o.get("ok") and finite(o):
             m, f, a, b = ck["method"], ck["f"], ck["a"], ck["b"]
             tol = Fraction(TOL12 * max(f.scale(a, b), 1e-300))
@@ -1045,7 +1053,7 @@ def gl_certificates(ctx, gl_tables):
         X = [int(x * (1 << E)) for x in xs]
         W = [int(w * (1 << F)) for w in ws]
         s = ("From Coq Require Import Reals ZArith List.\nFrom Bignums Require Import BigZ.\nFrom Coquelicot Require Import Coquelicot.\n"
-             "From SpdVerif Require Import Base.NumOps Gen.Integration Model.Quadrature Proofs.C12_rule Proofs.C12_cert.\n"
+             "From SpdVerif Require Import Base.NumOps Gen.Integration Model.Quadrature Proofs.C12_rule Proofs.C12_cert Proofs.C12_gl_cert.\n"
              "Import ListNotations.\n")
         s += f"(* Gauss-Legendre rule with {n} points as extracted from Integrator::GaussLegendre {{ degree: {n} }}.integrate on [-1,1]:\n" \
              f"   nodes X_i / 2^{E}, weights W_i / 2^{F} (exact binary64 values) *)\n"
@@ -1054,6 +1062,9 @@ def gl_certificates(ctx, gl_tables):
         s += f"Lemma cert : cert_check_big {E} {F} {2 * n - 1} 1 {GL_EPS_DEN} xs ws = true.\nProof. vm_compute. reflexivity. Qed.\n"
         s += f"Definition gl_{n}_exact := certified_rule_exact {E} {F} {2 * n - 1} 1 {GL_EPS_DEN} xs ws eq_refl eq_refl eq_refl cert.\n"
         s += f"Check (gl_{n}_exact : forall (a b : R) (cs : list C), (length cs <= {2 * n})%nat -> _).\n"
+        s += f"Lemma range : range_check_big {E} xs ws = true.\nProof. vm_compute. reflexivity. Qed.\n"
+        s += f"Definition gl_{n}_expi := certified_rule_expi_exact {E} {F} {2 * n - 1} 1 {GL_EPS_DEN} xs ws eq_refl eq_refl eq_refl cert range.\n"
+        s += f"Check (gl_{n}_expi : forall (a b k : R) (amp : C), k <> 0 -> a <> b -> _).\n"
         s += f"Goal True. idtac \"CERT {n} OK\". Abort.\n"
         if n == biggest:
             s += f"Print Assumptions gl_{n}_exact.\n"
@@ -1081,8 +1092,8 @@ def gl_certificates(ctx, gl_tables):
                     ctx.proof_failures.append((f"Cases/C12_gl/gl_{n}.v", "Print Assumptions", "unexpected axioms: " + ", ".join(bad)))
             if not ok[n]:
                 ctx.log(f"   certificate for n = {n} failed: " + out[-300:].replace("\n", " | "))
-    ctx.cov["obligations"] += 2 * len(files)
-    ctx.cov["discharged"] += 2 * sum(1 for v in ok.values() if v)
+    ctx.cov["obligations"] += 4 * len(files)
+    ctx.cov["discharged"] += 4 * sum(1 for v in ok.values() if v)
     ctx.cov["checker_cmd"] += f"; coqc -Q coq SpdVerif coq/Cases/C12_gl/gl_<n>.v ({len(files)} extracted Gauss-Legendre rules, moment certificate by vm_compute)"
     ctx.log(f"S4 C12_gl: {sum(1 for v in ok.values() if v)}/{len(files)} extracted Gauss-Legendre rules certified "
             f"(all moments k <= 2n-1 within 1/{GL_EPS_DEN}) in {time.time()-t:.1f}s")
@@ -1173,7 +1184,7 @@ def run(ctx):
     cases_ok = cert_ok = False
     if not msgs:
         cases_ok = proved or coq_build(ctx, ["Proofs/C12_cases.vo"], timeout=900)[0]
-        cert_ok = proved or coq_build(ctx, ["Proofs/C12_cert.vo"], timeout=900)[0]
+        cert_ok = proved or coq_build(ctx, ["Proofs/C12_gl_cert.vo"], timeout=900)[0]
     rng = random.Random(ctx.seed)
     obs0 = run_jobs(ctx, binp, count_jobs(), nproc=4)
     counts = {int(k[1:]): o["evals"] - 1 for k, o in obs0.items() if o.get("ok") and o.get("evals", 0) > 1}
@@ -1193,7 +1204,7 @@ def run(ctx):
         if cert_ok:
             gl_certificates(ctx, gl_tables)
         else:
-            ctx.note("Gauss-Legendre certificates skipped: Proofs/C12_cert.vo did not build")
+            ctx.note("Gauss-Legendre certificates skipped: Proofs/C12_gl_cert.vo did not build")
     else:
         ctx.note("correspondence cases skipped: generated model did not compile")
     def baseline(v):
@@ -1233,7 +1244,7 @@ def run(ctx):
         "Simpson exact on complex cubics, every interval, every accepted divs (1-D) / even divs>=4 (2-D)": "proved (translated kernels over R/C) + measured 1e-12 (binary64) + Q-model correspondence",
         "n-point Gauss-Legendre exact to degree 2n-1": "proved per extracted rule: kernel-checked moment certificate (1e-13) + C12_certified_rule_exact, re-extracted every run; binary64 evaluation measured",
         "adaptive Simpson exact on cubics (a<=b), Richardson step exact to degree 5, accepted panel error <= eps": "proved",
-        "smooth oscillatory integrands within textbook bound / tolerance": "REFUTED for adaptive Simpson (Findings/C12_adaptive_alias.v: exp(4ix) on [0,2pi] returns 2pi for every tolerance); proved for Simpson 1-D on amp*exp(ikx) (C12_simpson_expi_bound: |b-a| h^4 k^4 |amp|/180, every interval/k/amplitude/accepted divs); Gauss-Legendre bound and the adaptive methods' tolerances validated_only (oracle on amp*exp(ikx))",
+        "smooth oscillatory integrands within textbook bound / tolerance": "proved for Simpson 1-D (C12_simpson_expi_bound: |b-a| h^4 k^4 |amp|/180) and 2-D separable (C12_simpson2d_expi_bound); proved for every extracted Gauss-Legendre rule from the run's certificate + Taylor remainder (C12_certified_rule_expi_exact, instantiated per rule: |amp| |b-a|/2 (eps sum_{m<2n} |ku|^m/m! + (4+eps) |ku|^(2n)/(2n)!), ku = k(b-a)/2); the sharper classical Gauss-Legendre constant and the adaptive methods' tolerances are validated_only; REFUTED for adaptive Simpson on the aliasing family (C12_adaptive_alias_family_result, known finding F5e)",
         "reversing the interval negates": "proved for Simpson 1-D/2-D and adaptive Simpson 1-D/2-D (all integrands, C12_adaptive_reverse, C12_adaptive_2d_reverse); proved within 2*bound for certified Gauss-Legendre on polynomials; Gauss-Kronrod, Clenshaw-Curtis validated_only",
         "linear in the integrand": "proved for every fixed rule (Simpson 1-D/2-D, Gauss-Legendre adapter); adaptive methods validated_only",
         "2-D separable = product of 1-D": "proved for tensor rules (C12_tensor, C12_simpson2d_product_of_1d); others validated_only",
@@ -1241,7 +1252,7 @@ def run(ctx):
         "parameter accepted in 1-D is accepted in 2-D": "proved for ALL divs (C12_accept_1d_2d); every divs >= 4 accepted by both forms (C12_accept_from4)",
         "Gauss-Kronrod, Clenshaw-Curtis accuracy": "validated_only (external adaptive crates)"}
     return finish(ctx, assumptions=[
-        "binary64 rounding of the kernels is measured against the exact Q model (1e-12 relative to the scale |b-a| sum|c_k| max(|a|,|b|)^k), not proved",
+        "binary64 rounding: proved for the sequential evaluation of `simpson` in the standard model without overflow/underflow (C12_simpson_binary64, (1+u)^(n+6)-1 relative to sum w_i |f(x_i)| dx/3); node displacement, the rayon reduction order (n >= 128) and all other kernels are measured against the exact Q model (1e-12 relative to the integrand's scale), not proved",
         "gauss-quad's integrate (affine transfer) and the iterator/rayon machinery behind Steps are hand-modelled and checked by rule extraction",
         "quad-rs (Gauss-Kronrod) and quadrature (Clenshaw-Curtis) are external: validated by sampling only",
         "the extracted rule is the linear functional the code applies to indicator integrands; linearity of the fixed-rule code paths is what the translated model proves"])
